@@ -24,6 +24,7 @@ type c18Lic struct {
 	amount math.Int
 	months uint32
 	via    string
+	denom  string
 }
 
 type c18Op struct {
@@ -33,6 +34,7 @@ type c18Op struct {
 	amount math.Int
 	months uint32
 	tx     []byte
+	denom  string
 }
 
 type c18Active struct {
@@ -40,6 +42,7 @@ type c18Active struct {
 	amount math.Int
 	months uint32
 	at     time.Time
+	denom  string
 }
 
 func c18(r *core.Run) []*core.Violation {
@@ -190,9 +193,15 @@ func c18(r *core.Run) []*core.Violation {
 				amt := math.NewIntFromUint64(1 + t.Uint64()%2_000_000_000)
 				months := uint32(t.Intn(40))
 				preAccount[client] = hadAccount(client)
-				res := w.Submit(u, &palomatypes.MsgAddLightNodeClientLicense{Metadata: meta(u), ClientAddress: client, Amount: sdk.NewCoin(app.BondDenom, amt), VestingMonths: months})
+				// licences are mostly paid in the staking coin, sometimes in another coin the buyer holds (a bridged factory token)
+				denom := app.BondDenom
+				if t.Draw(4) == 3 {
+					denom = w.Tokens[0].Denom
+					r.Stats.Probe("licence_in_other_denom")
+				}
+				res := w.Submit(u, &palomatypes.MsgAddLightNodeClientLicense{Metadata: meta(u), ClientAddress: client, Amount: sdk.NewCoin(denom, amt), VestingMonths: months})
 				if res.Accepted() {
-					pending = append(pending, &c18Op{kind: "license", user: u, client: client, amount: amt, months: months, tx: res.Tx})
+					pending = append(pending, &c18Op{kind: "license", user: u, client: client, amount: amt, months: months, tx: res.Tx, denom: denom})
 				}
 			case k < 7: // activation / re-activation / auth by a licensee (or by somebody without a licence)
 				var who *world.Account
@@ -297,7 +306,7 @@ func c18(r *core.Run) []*core.Violation {
 				if _, act := actives[op.client]; act || preAccount[op.client] {
 					bad("licence-for-existing-account", h, "a licence was created for %s which already had an account", op.client)
 				}
-				licences[op.client] = &c18Lic{op.client, op.amount, op.months, "direct"}
+				licences[op.client] = &c18Lic{op.client, op.amount, op.months, "direct", op.denom}
 			case "activate":
 				lic := licences[op.client]
 				if !ok {
@@ -309,16 +318,16 @@ func c18(r *core.Run) []*core.Violation {
 					continue
 				}
 				delete(licences, op.client)
-				actives[op.client] = &c18Active{op.user, lic.amount, lic.months, br.Time}
+				actives[op.client] = &c18Active{op.user, lic.amount, lic.months, br.Time, lic.denom}
 				acc := w.N.App.AccountKeeper.GetAccount(ctx, op.user.Addr)
 				va, isV := acc.(*vestingtypes.ContinuousVestingAccount)
 				if !isV {
 					bad("not-vesting-after-activation", h, "%s is a %T after activation, not a continuous vesting account", op.client, acc)
 					continue
 				}
-				ov := va.OriginalVesting.AmountOf(app.BondDenom)
+				ov := va.OriginalVesting.AmountOf(lic.denom)
 				if !ov.Equal(lic.amount) || len(va.OriginalVesting) > 1 {
-					bad("vesting-amount", h, "%s: original vesting %s, licence amount %s", op.client, va.OriginalVesting, lic.amount)
+					bad("vesting-amount", h, "%s: original vesting %s, licence amount %s%s", op.client, va.OriginalVesting, lic.amount, lic.denom)
 				}
 				if va.StartTime != br.Time.Unix() {
 					bad("vesting-start", h, "%s: vesting starts at %d, activation block time is %d", op.client, va.StartTime, br.Time.Unix())
@@ -380,7 +389,7 @@ func c18(r *core.Run) []*core.Violation {
 				if !lic.Amount.Amount.Equal(need) || lic.Amount.Denom != app.BondDenom {
 					bad("sale-licence-amount", h, "sale of %d grain created a licence over %s", ev.grain, lic.Amount)
 				}
-				licences[ev.buyer] = &c18Lic{ev.buyer, need, lic.VestingMonths, "sale"}
+				licences[ev.buyer] = &c18Lic{ev.buyer, need, lic.VestingMonths, "sale", app.BondDenom}
 			} else {
 				if should {
 					r.Note("C02", "sale-not-applied", "sale nonce %d for %s met every precondition but created no licence", ev.nonce, ev.buyer)
@@ -396,15 +405,18 @@ func c18(r *core.Run) []*core.Violation {
 		if err != nil {
 			core.Harnessf("licences: %v", err)
 		}
-		sum := math.ZeroInt()
+		sums := map[string]math.Int{app.BondDenom: math.ZeroInt(), w.Tokens[0].Denom: math.ZeroInt()}
 		seen := map[string]bool{}
 		for _, l := range all {
-			sum = sum.Add(l.Amount.Amount)
+			if _, ok := sums[l.Amount.Denom]; !ok {
+				sums[l.Amount.Denom] = math.ZeroInt()
+			}
+			sums[l.Amount.Denom] = sums[l.Amount.Denom].Add(l.Amount.Amount)
 			seen[l.ClientAddress] = true
 			if m, ok := licences[l.ClientAddress]; !ok {
 				bad("unexplained-licence", h, "licence for %s over %s exists but no successful licence transaction or qualifying sale created it", l.ClientAddress, l.Amount)
-				licences[l.ClientAddress] = &c18Lic{l.ClientAddress, l.Amount.Amount, l.VestingMonths, "?"}
-			} else if !m.amount.Equal(l.Amount.Amount) {
+				licences[l.ClientAddress] = &c18Lic{l.ClientAddress, l.Amount.Amount, l.VestingMonths, "?", l.Amount.Denom}
+			} else if !m.amount.Equal(l.Amount.Amount) || m.denom != l.Amount.Denom {
 				bad("licence-amount-changed", h, "licence of %s shows %s, created with %s", l.ClientAddress, l.Amount, m.amount)
 			}
 		}
@@ -415,9 +427,11 @@ func c18(r *core.Run) []*core.Violation {
 			}
 		}
 		authPrev = authorisedNow()
-		esc := w.N.App.BankKeeper.GetBalance(ctx, module, app.BondDenom).Amount
-		if !esc.Equal(sum) {
-			bad("escrow-mismatch", h, "licence escrow holds %s but open licences sum to %s", esc, sum)
+		for _, d := range core.SortedKeys(sums) {
+			esc := w.N.App.BankKeeper.GetBalance(ctx, module, d).Amount
+			if !esc.Equal(sums[d]) {
+				bad("escrow-mismatch", h, "licence escrow holds %s%s but open licences in that coin sum to %s", esc, d, sums[d])
+			}
 		}
 		r.Stats.ProbeN("open_licences_seen", int64(len(all)))
 		// --- linear vesting at this (possibly much later) time
@@ -428,8 +442,8 @@ func c18(r *core.Run) []*core.Violation {
 				bad("vesting-account-lost", h, "%s is no longer a continuous vesting account", a)
 				continue
 			}
-			bal := w.N.App.BankKeeper.GetBalance(ctx, ac.acct.Addr, app.BondDenom).Amount
-			spend := w.N.App.BankKeeper.SpendableCoins(ctx, ac.acct.Addr).AmountOf(app.BondDenom)
+			bal := w.N.App.BankKeeper.GetBalance(ctx, ac.acct.Addr, ac.denom).Amount
+			spend := w.N.App.BankKeeper.SpendableCoins(ctx, ac.acct.Addr).AmountOf(ac.denom)
 			ov := ac.amount
 			var vested math.Int
 			now := br.Time.Unix()
